@@ -461,6 +461,7 @@ func runQhat(m *model.Model, s *ob.Set) {
 			}
 		}
 		// compensations without a decrement
+		nWin := 0
 		for _, b := range fn.Blocks {
 			if !live[b.Index] {
 				continue
@@ -493,6 +494,75 @@ func runQhat(m *model.Model, s *ob.Set) {
 				}
 				cn := fmt.Sprintf("dec.divRecursiveStep/give-back@%s", strings.TrimPrefix(m.InstrPos(in), "dec.go:"))
 				_ = cn
+				// the window given back to is the window that was compared: root slice and the sum of the
+				// cut points agree (the compared window's offset plus the split of the divisor). Only a
+				// cut point that is missing from the destination and provably positive is a definite
+				// difference; everything the decomposition cannot match is left alone.
+				if vsl, isSl := stripConvAny(c.Args[1]).(*ssa.Slice); isSl {
+					rootD, offsD := gbDecomp(m, c.Args[0])
+					for _, gb := range fn.Blocks {
+						if !live[gb.Index] {
+							continue
+						}
+						for si := 0; si < len(gb.Succs) && si < 2; si++ {
+							if !strictGT(gb, si) || !m.EdgeDominates(gb, si, b) {
+								continue
+							}
+							bo := gb.Instrs[len(gb.Instrs)-1].(*ssa.If).Cond.(*ssa.BinOp)
+							var cc *ssa.Call
+							for _, v := range []ssa.Value{bo.X, bo.Y} {
+								if x, ok := stripConv(v).(*ssa.Call); ok {
+									cc = x
+								}
+							}
+							if cc == nil || len(cc.Call.Args) != 2 {
+								continue
+							}
+							rootY, want := gbDecomp(m, cc.Call.Args[1])
+							if rootY != rootD {
+								continue
+							}
+							if vsl.Low != nil {
+								if k, ok := model.ConstInt(vsl.Low); !ok || k != 0 {
+									want = append(want, vsl.Low)
+								}
+							}
+							have := append([]ssa.Value(nil), offsD...)
+							var missing []ssa.Value
+							for _, w := range want {
+								found := false
+								for i, h := range have {
+									if h != nil && (stripConv(h) == stripConv(w) || structEq(stripConv(h), stripConv(w), 3)) {
+										have[i], found = nil, true
+										break
+									}
+								}
+								if !found {
+									missing = append(missing, w)
+								}
+							}
+							extra := 0
+							for _, h := range have {
+								if h != nil {
+									extra++
+								}
+							}
+							if extra != 0 {
+								continue // re-expressed offsets: not decided here
+							}
+							definite := len(missing) > 0
+							for _, w := range missing {
+								if !gbPositive(m, fn, live, w, b) {
+									definite = false
+								}
+							}
+							if len(missing) == 0 || definite {
+								nWin++
+								s.Check(len(missing) == 0, R, fmt.Sprintf("dec.divRecursiveStep/window#%d", nWin), m.InstrPos(in), "the divisor's high part is given back to the window of the dividend that the comparison looked at", "the divisor's high part is given back at a different place of the dividend than the window that was compared with the partial product (a cut point of the compared window, positive on this path, is missing from the destination)")
+							}
+						}
+					}
+				}
 				if !hasDec {
 					s.Bad(R, "dec.divRecursiveStep/give-back", m.InstrPos(in), m.InstrPos(in)+": the divisor's high part is given back to the dividend without the estimate having been decremented on the way: dividend and quotient no longer belong together")
 				}
@@ -816,4 +886,66 @@ func backEdgeLeavesLoop(m *model.Model, hb *ssa.BasicBlock, i int) bool {
 	taken := hb.Succs[pol]
 	inLoop := taken == hb || (m.Dominates(hb, taken) && blockReaches(taken, hb))
 	return !inLoop
+}
+
+// gbDecomp follows slicings and norm() calls from v to the slice they start from and collects the
+// non-zero low cut points on the way.
+func gbDecomp(m *model.Model, v ssa.Value) (ssa.Value, []ssa.Value) {
+	var offs []ssa.Value
+	for {
+		v = stripConvAny(v)
+		switch x := v.(type) {
+		case *ssa.Slice:
+			if x.Low != nil {
+				if k, ok := model.ConstInt(x.Low); !ok || k != 0 {
+					offs = append(offs, x.Low)
+				}
+			}
+			v = x.X
+			continue
+		case *ssa.Call:
+			if cal := model.Unthunk(x.Call.StaticCallee()); cal != nil && strings.HasSuffix(m.FuncName(cal), ".norm") && len(x.Call.Args) == 1 {
+				v = x.Call.Args[0]
+				continue
+			}
+		}
+		return v, offs
+	}
+}
+
+// gbPositive: w is a difference a-b and an edge that dominates at establishes a > b.
+func gbPositive(m *model.Model, fn *ssa.Function, live []bool, w ssa.Value, at *ssa.BasicBlock) bool {
+	d, ok := stripConv(w).(*ssa.BinOp)
+	if !ok || d.Op != token.SUB {
+		return false
+	}
+	same := func(p, q ssa.Value) bool {
+		return stripConv(p) == stripConv(q) || structEq(stripConv(p), stripConv(q), 3)
+	}
+	for _, gb := range fn.Blocks {
+		if !live[gb.Index] || len(gb.Instrs) == 0 {
+			continue
+		}
+		ifi, ok := gb.Instrs[len(gb.Instrs)-1].(*ssa.If)
+		if !ok {
+			continue
+		}
+		bo, ok := ifi.Cond.(*ssa.BinOp)
+		if !ok {
+			continue
+		}
+		for si := 0; si < 2 && si < len(gb.Succs); si++ {
+			op := bo.Op
+			if si == 1 {
+				op = negOp[op]
+			}
+			if !m.EdgeDominates(gb, si, at) {
+				continue
+			}
+			if (op == token.GTR && same(bo.X, d.X) && same(bo.Y, d.Y)) || (op == token.LSS && same(bo.X, d.Y) && same(bo.Y, d.X)) {
+				return true
+			}
+		}
+	}
+	return false
 }
